@@ -93,6 +93,43 @@ PYX = ["cython_get_tau", "cython_profiles", "cython_distances", "cython_add",
        "cython_directionality"]
 
 
+class _CDiv(__import__("ast").NodeTransformer):
+    """the .pyx files are compiled with cdivision=True: a / b never raises, a
+    zero divisor gives nan / inf as in C.  Rewrite every true division."""
+
+    def visit_BinOp(self, node):
+        import ast
+        self.generic_visit(node)
+        if isinstance(node.op, ast.Div):
+            return ast.copy_location(
+                ast.Call(func=ast.Name(id="_cdiv", ctx=ast.Load()), args=[node.left, node.right], keywords=[]),
+                node)
+        return node
+
+    def visit_AugAssign(self, node):
+        import ast
+        self.generic_visit(node)
+        if isinstance(node.op, ast.Div):
+            import copy
+            load = copy.deepcopy(node.target)
+            load.ctx = ast.Load()
+            return ast.copy_location(
+                ast.Assign(targets=[node.target],
+                           value=ast.Call(func=ast.Name(id="_cdiv", ctx=ast.Load()), args=[load, node.value],
+                                          keywords=[])), node)
+        return node
+
+
+def _cdiv(a, b):
+    try:
+        return a / b
+    except ZeroDivisionError:
+        a = float(a)
+        if a != a or a == 0.0:
+            return float("nan")
+        return float("inf") if a > 0 else float("-inf")
+
+
 def _prelude():
     import numpy as np
 
@@ -105,7 +142,7 @@ def _prelude():
 
     def fmin(a, b):
         return b if b < a else a
-    return {"fabs": fabs, "fmax": fmax, "fmin": fmin, "np": np}
+    return {"fabs": fabs, "fmax": fmax, "fmin": fmin, "np": np, "_cdiv": _cdiv}
 
 
 def install_cython(repo=REPO):
@@ -123,7 +160,10 @@ def install_cython(repo=REPO):
         mod.__file__ = path
         if name != "cython_get_tau":
             mod.__dict__["get_tau"] = mods["cython_get_tau"].get_tau
-        exec(compile(code, path, "exec"), mod.__dict__)
+        import ast
+        tree = _CDiv().visit(ast.parse(code, path))
+        ast.fix_missing_locations(tree)
+        exec(compile(tree, path, "exec"), mod.__dict__)
         sys.modules["pyspike.cython." + name] = mod
         setattr(sys.modules["pyspike.cython"], name, mod)
         mods[name] = mod
